@@ -91,8 +91,11 @@ class Gen:
 
     def name(self, prefix):
         if self.p.names:
+            pool = self.p.names
+            if isinstance(pool, dict):
+                pool = pool.get(prefix, pool["*"])
             for _ in range(20):
-                n = self.pick(self.p.names)
+                n = self.pick(pool)
                 if n not in self._names_used:
                     self._names_used.add(n)
                     return n
